@@ -51,6 +51,21 @@ def run_node_default(node: NodeBase[NodeResultT], **kwargs: t.Any) -> t.Type[Nod
     return get_instance(node).get_default(**kwargs)
 
 
+def _call_run_method(run_method: t.Callable, *args: t.Any, **kwargs: t.Any) -> t.Any:
+    """
+    Call the run method of a node in a worker of a pool.
+
+    A StopIteration cannot be set as the exception of an asyncio future: the future would never be resolved and the
+    node would neither fail nor be retried. As inside a coroutine (PEP 479), it becomes a RuntimeError.
+    """
+
+    try:
+        return run_method(*args, **kwargs)
+
+    except StopIteration as ex:
+        raise RuntimeError('The run method of the node raised StopIteration') from ex
+
+
 async def run_node(node: NodeBase[NodeResultT], *args: t.Any, node_id: NodeId, **kwargs: t.Any) -> t.Type[NodeResultT]:
     """
     Run a node in a specific way according to the node's tags
@@ -83,7 +98,7 @@ async def run_node(node: NodeBase[NodeResultT], *args: t.Any, node_id: NodeId, *
 
         result = await loop.run_in_executor(
             executor,
-            functools.partial(run_method, *args, **kwargs),
+            functools.partial(_call_run_method, run_method, *args, **kwargs),
         )
 
     return result
